@@ -243,6 +243,15 @@ func c16Main(args []string) error {
 					if k < 48 && dir == 0 {
 						off = k // the framing fields at the start of the stream
 					}
+					if k < 48 && dir == 1 && n > 48 {
+						// the result labels at the end of the evaluator's stream, one bit at a time: the
+						// permute bit is the top bit of a label's first byte
+						off = n - 1 - k
+						m = masks[1-k%2]
+						if k%5 == 4 {
+							m = masks[1]
+						}
+					}
 					coords = append(coords, c16Coord{Base: bi, GE: dir == 0, Off: off, Mask: m})
 				}
 			}
